@@ -276,7 +276,7 @@ class CFG:
                 continue
             out = transfer(n, IN[n.id])
             for s, label in n.succ:
-                o = out.get(label, out.get(None)) if isinstance(out, dict) \
+                o = out.get(label, out.get(None)) if isinstance(out, ByLabel) \
                     else out
                 if o is None:
                     continue
@@ -290,6 +290,10 @@ class CFG:
                         if s not in work:
                             work.append(s)
         return IN
+
+
+class ByLabel(dict):
+    """Transfer result that differs per outgoing edge label."""
 
 
 def _has_catch_all(st):
